@@ -267,6 +267,9 @@ pub fn forget_scan(ctx: &Ctx, cfg: &Config, hist: &[Op], exhaustive_len: usize, 
     }
     for kind in ITER_KINDS {
         for pat in &pats {
+            if pat.len() > 64 {
+                continue;
+            }
             reg_reset();
             reset_counts();
             let mut ex = rebuild(u, cfg, hist);
@@ -324,7 +327,7 @@ pub fn forget_scan(ctx: &Ctx, cfg: &Config, hist: &[Op], exhaustive_len: usize, 
                     let _ = post_fault_oracle(u, cfg, &mut ex, fp, &mut viol);
                 }
                 IterKind::Drain => {
-                    let mut bits = 0u16;
+                    let mut bits = 0u64;
                     for (i, f) in pat.iter().enumerate() {
                         if *f {
                             bits |= 1 << i;
